@@ -6,7 +6,7 @@ from common import hx
 import schemes_env as se
 import schemes_rec as sr
 
-MODELLED = ["PiBas", "PiPack", "PiPtr", "CT14", "ANSS16", "SSE2"]
+MODELLED = ["PiBas", "PiPack", "PiPtr", "CT14", "ANSS16", "SSE2", "SSE1", "DP17", "Pi2Lev"]
 
 
 def _tbl(d):
@@ -26,6 +26,12 @@ def _i2b(x):
 
 
 ADAPT = {
+    "Pi2Lev": dict(key=lambda k: [k.K], edb=lambda e: "D " + _tbl(e.D) + " | A " + _cells(e.A), token=lambda t: [t.K1, t.K2]),
+    "DP17": dict(key=lambda k: [k.k1, k.k2, k.k3],
+                 edb=lambda e: "HT " + _tbl(e.HT) + " | A " + ";".join(f"{i}=" + _hxl(a) for i, a in e.A_dict.items()),
+                 token=lambda t: [t.tag, t.vtag, t.etag]),
+    "SSE1": dict(key=lambda k: [k.K1, k.K2, k.K3, k.K4], edb=lambda e: "A " + _hxl(e.A) + " | T " + _tbl(e.T),
+                 token=lambda t: [t.gamma, t.eta]),
     "SSE2": dict(key=lambda k: [k.K1, k.K2], edb=lambda e: "I " + (",".join(f"{k}:{hx(v)}" for k, v in e.I.items()) if e.I else "."),
                  token=lambda t: [_i2b(x) for x in t.t]),
     "ANSS16": dict(key=lambda k: [k.K], edb=lambda e: "S " + _tbl(e.HT_S) + " | L " + " | ".join(_tbl(t) for t in e.HT_L_list),
@@ -50,6 +56,7 @@ def run_impl(name, cfg, db, words, rng):
         try:
             scheme = ld.SSEScheme(cfg)
             obs["cfg"] = "ok"
+            rec.tape.clear()        # draws made while building the configuration (DP17 measures a ciphertext length) are not the model's
         except Exception as e:
             obs["cfg"] = "err " + errname(e)
             return obs, rec
@@ -136,7 +143,7 @@ def judge_case(name, words, obs, stage, lines, outs):
             if mt != t:
                 mism.append((f"token {hx(w)}", t[:200], mt[:200]))
             if name == "DP17" and ms.startswith("ok ") and ms != "ok .":
-                ms = "ok " + ",".join(sorted(ms[3:].split(",")))
+                ms = "ok " + ",".join(sorted(set(ms[3:].split(","))))
             if ms != s:
                 mism.append((f"search {hx(w)}", s[:200], ms[:200]))
     return mism
